@@ -3,7 +3,7 @@ from __future__ import annotations
 
 import ast
 
-from tiv.astutil import (assigned_targets, body_walk, call_name, dotted, enclosing_func, enclosing_stmt,
+from tiv.astutil import (ancestors, assigned_targets, body_walk, call_name, dotted, enclosing_func, enclosing_stmt,
                          guards, names_loaded, norm, short, stores_in, try_context, walk_local)
 from tiv.cfg import may_raise_sync
 from tiv.mutate import M
@@ -165,6 +165,14 @@ def run(ck, m):
             ck.ob("R1", enclosing_stmt(ys_[0]) if ys_ else st, not ys_,
                   "the protected region yields: while the generator is suspended the terminal stays modified, and the restoring `finally` only runs when the consumer exhausts or closes the generator "
                   "(a consumer that stops early, or keeps a reference, leaves the terminal modified indefinitely)", stmt=f"{fn.name}: no yield between modification and restore")
+            # everything the restoring clean-up reads is bound before the try is entered: a name first assigned inside the try body is
+            # unbound when the body was interrupted earlier, and the `finally` then dies (UnboundLocalError) before it restores
+            bound_in_try = {t_.id for b_ in t.body for t_, _s in stores_in(b_) if isinstance(t_, ast.Name)}
+            bound_before = {t_.id for t_, s_ in stores_in(ast.Module(body=fn.body, type_ignores=[])) if isinstance(t_, ast.Name) and s_.lineno < t.lineno and not any(a_ is t for a_ in ancestors(s_))}
+            params_ = {a_.arg for a_ in ast.walk(fn.args) if isinstance(a_, ast.arg)}
+            late = sorted({n_.id for f_ in t.finalbody for n_ in walk_local(f_) if isinstance(n_, ast.Name) and isinstance(n_.ctx, ast.Load)} & (bound_in_try - bound_before - params_))
+            ck.ob("R1", enclosing_stmt(r), not late, f"the restoring `finally` reads {late}, first assigned inside the try body: when the body is interrupted before that assignment the clean-up "
+                  "raises UnboundLocalError and the attributes are never restored", stmt=f"{fn.name}: the restoring finally reads only names bound before the try")
             gm, gr = tliterals(fn, c), tliterals(fn, r)      # (traced: a guard on a value derived from another condition implies it)
             ck.ob("R3", enclosing_stmt(r), gr <= gm,
                   f"the restore is guarded by {sorted(gr - gm)} which the modification is not: the restore can be skipped after a modification",
